@@ -43,12 +43,19 @@ Definition error_ptr_unused : bool :=
     thread-safe (localeconv and the locale-dependent conversions under the documented
     condition that the locale is not changed while the library runs) *)
 Definition thread_safe_libc : list string :=
-  ["__builtin_isinf_sign"; "__builtin_isnan"; "__builtin_nanf"; "__builtin_inff"; "__builtin_huge_val"; "fabs";
-   "free"; "malloc"; "realloc"; "localeconv"; "memcpy"; "memset"; "memmove"; "sprintf"; "sscanf"; "strcmp"; "strcpy";
-   "strlen"; "strncmp"; "strtod"; "tolower"; "strcat"; "strrchr"; "strchr"; "strncpy"; "memcmp"].
+  ["fabs"; "floor"; "ceil"; "fmod"; "pow"; "sqrt"; "log10"; "modf"; "frexp"; "ldexp"; "trunc"; "round"; "isnan"; "isinf"; "isfinite";
+   "free"; "malloc"; "realloc"; "calloc"; "localeconv";
+   "memcpy"; "memset"; "memmove"; "memcmp"; "memchr";
+   "sprintf"; "snprintf"; "vsprintf"; "vsnprintf"; "sscanf";
+   "strcmp"; "strncmp"; "strcpy"; "strncpy"; "strcat"; "strncat"; "strlen"; "strnlen"; "strchr"; "strrchr"; "strstr"; "strspn"; "strcspn"; "strpbrk";
+   "strtod"; "strtof"; "strtol"; "strtoul"; "strtoll"; "strtoull"; "atoi"; "atol"; "atof"; "abs"; "labs";
+   "tolower"; "toupper"; "isdigit"; "isxdigit"; "isspace"; "isalpha"; "isalnum"; "isupper"; "islower"; "isprint"; "iscntrl"].
+(** compiler builtins (isnan/isinf/nan expansions) have no state *)
+Definition is_builtin (f : string) : bool := String.prefix "__builtin_" f.
+Definition safe_external (f : string) : bool := is_builtin f || mem f thread_safe_libc.
 Definition externals_ok : bool :=
-  incl_b core_externals thread_safe_libc &&
-  forallb (fun f => mem f thread_safe_libc || mem f core_defined) utils_externals.
+  forallb safe_external core_externals &&
+  forallb (fun f => safe_external f || mem f core_defined) utils_externals.
 
 (** --- C14: allocation sites -------------------------------------------------------------- *)
 (** the C allocator is mentioned only where the default hooks are set up: the initialiser of
